@@ -57,12 +57,6 @@ func collectFields(v reflect.Value, tname string, o WalkOpts, out *[]Node, depth
 			continue
 		}
 		fv := v.Field(i)
-		if f.Anonymous && fv.Kind() == reflect.Ptr && !fv.IsNil() && fv.Elem().Kind() == reflect.Struct && depth == 0 {
-			// embedded node (ForPhraseStmt embeds *ForPhrase): the embedded node is a child in its own right
-			// only if it is a Node; ast.Walk treats ForPhraseStmt's ForPhrase fields as its own: flatten.
-			collectFields(fv.Elem(), fv.Elem().Type().Name(), o, out, depth)
-			continue
-		}
 		if !o.Comments && isCommentGroup(f.Type) {
 			continue
 		}
@@ -84,6 +78,9 @@ func collectValue(fv reflect.Value, o WalkOpts, out *[]Node, depth int) {
 			if n, ok := fv.Interface().(Node); ok {
 				if !o.Comments && isCommentGroup(reflect.TypeOf(n)) {
 					return
+				}
+				if rt := reflect.TypeOf(n); rt.Kind() == reflect.Ptr && strings.Contains(rt.Elem().PkgPath(), "tpl/ast") {
+					return // embedded TPL grammar file: a different tree
 				}
 				*out = append(*out, n)
 				return
